@@ -29,6 +29,7 @@ def run(prog, chk):
     chk.decided += ["variable cursive / caret anchors: every source that has the anchor contributes its own value at its own location - a master whose anchor happens to equal the default's is still "
                     "pinned (R18.8 = R10.2)"]
     chk.decided += ["feature-writer objects keep no per-font state outside self.context (no memoising decorators, no attributes written outside __init__): a GDEF / curs writer object reused for a second font must not keep the first font's categories (R18.9 = R08.7)"]
+    chk.decided += ["the GSUB over which the direction sets are closed is the one feaLib builds from the writer's whole feature file (or that table from the per-compiler cache): compileGSUB has no other answer (R18.10)"]
     chk.not_decided += ["the values read back from the compiled GDEF/GPOS", "script direction data (unicodedata)"]
     chk.guard(r181, prog, chk)
     chk.guard(r182, prog, chk)
@@ -40,6 +41,7 @@ def run(prog, chk):
     chk.guard(r102, prog, chk, "R18.8")
     from .c08 import r087
     chk.guard(r087, prog, chk, "R18.9")
+    chk.guard(r1810, prog, chk)
     from .rounding import check_no_truthiness_on_coordinates
     n = check_no_truthiness_on_coordinates(prog, chk, "R18.6", [GDEFW_MOD, CURS_MOD, "ufo2ft.featureWriters.baseFeatureWriter"])
     need(n >= 20, "truthiness scan found too few tests")
@@ -489,7 +491,68 @@ def r187(prog, chk):
     chk.minimum("R18.7", 3)
 
 
+# ----------------------------------------------------------------------------- R18.10
+def r1810(prog, chk):
+    """The GSUB closure of the direction sets needs the GSUB of the whole feature file: the writers' compileGSUB hands back
+    what feaLib built from the feature file (or that same table, cached), never a shortcut answer."""
+    ix = prog.ix
+    m = ix.get_method("ufo2ft.featureWriters.baseFeatureWriter.BaseFeatureWriter", "compileGSUB", own=True)
+    rets = A.returns_of(m.node)
+    need(rets, f"cannot interpret {m.short}")
+    built = []
+
+    def ok_origin(x, ff):
+        if isinstance(x, ast.Call) and prog.is_call_to(ff, x, "ufo2ft.util.compileGSUB"):
+            built.append(x)
+            return True
+        return isinstance(x, ast.Attribute) and x.attr == "_gsub"
+    for r in rets:
+        ok = r.value is not None and every_origin(prog, m, r.value, ok_origin, allow_const=False)[0]
+        chk.ob("R18.10", f"{m.short}|return {T(r.value, 40) if r.value is not None else ''}|the compiled (or cached) GSUB", bool(ok), where(m, r), detail="origin: util.compileGSUB(...) or compiler._gsub",
+               message=f"{m.short}: `{T(r, 60)}` hands the writers something else than the GSUB compiled from the feature file: the direction sets of the curs / kern writers are then not closed over "
+                       f"the font's substitutions (alternates reached through lookups are classified as if they had no script)")
+    need(built, f"cannot interpret {m.short}: no call of util.compileGSUB")
+    for c in {id(b): b for b in built}.values():
+        a0 = c.args[0] if c.args else next((k.value for k in c.keywords if k.arg == "featureFile"), None)
+        ok = a0 is not None and every_origin(prog, m, a0, lambda x, ff: isinstance(x, ast.Attribute) and x.attr == "feaFile" and T(x.value).endswith("context"), allow_const=False)[0]
+        chk.ob("R18.10", f"{m.short}|GSUB compiled from the context's feature file", bool(ok), where(m, c), detail=T(c, 70),
+               message=f"{m.short}: the temporary GSUB is not compiled from the writer's current feature file (`{T(a0, 40) if a0 is not None else 'missing'}`)")
+    # the cached table is only ever the built one
+    for fi in ix.functions.values():
+        if isinstance(fi.node, ast.Lambda):
+            continue
+        for s_, t, v in attr_stores(fi, "_gsub"):
+            ok = fi is m and v is not None and every_origin(prog, fi, v, lambda x, ff: isinstance(x, ast.Call) and prog.is_call_to(ff, x, "ufo2ft.util.compileGSUB"), allow_const=False)[0]
+            chk.ob("R18.10", f"{fi.short}|{T(s_, 40)}|cache holds the built table", bool(ok), where(fi, s_), detail=T(s_, 60),
+                   message=f"{fi.short}: `{T(s_, 60)}` stores something else than the compiled GSUB in the shared cache")
+    u = ix.get_func("ufo2ft.util:compileGSUB")
+    cfg = prog.cfg(u)
+    feats = [c for c in ast.walk(u.node) if isinstance(c, ast.Call) and A.callee_name(c) == "addOpenTypeFeatures"]
+    urets = A.returns_of(u.node)
+    p0 = u.node.args.args[0].arg
+    ok = len(feats) == 1 and len(urets) == 1 and urets[0].value is not None
+    if ok:
+        c = feats[0]
+        tables = next((k.value for k in c.keywords if k.arg == "tables"), None)
+        ok = len(c.args) >= 2 and isinstance(c.args[1], ast.Name) and c.args[1].id == p0 and all(d.kind == "param" for d in prog.reaching(u, p0, c.args[1])) \
+            and (tables is None or any(isinstance(x, ast.Constant) and x.value == "GSUB" for x in ast.walk(tables))) \
+            and not [g for g in may_conds(prog, u, c) if g.kind in ("if", "boolop", "ifexp", "while", "for")] \
+            and cfg.dominates(cfg.node_of(c), cfg.node_of(urets[0])) \
+            and T(c.args[0]) in T(urets[0].value) and "GSUB" in T(urets[0].value)
+    chk.ob("R18.10", f"{u.short}|feaLib builds GSUB from the whole feature file, unconditionally", bool(ok), where(u), detail=T(feats[0], 70) if feats else "",
+           message=f"{u.short}: the GSUB handed to the writers is not (always) what feaLib builds from the given feature file")
+    chk.minimum("R18.10", 4)
+
+
 MUTANTS = [
+    M("temporary GSUB skipped when the feature blocks hold no substitutions (seeded C18m)", "ufo2ft/featureWriters/baseFeatureWriter.py", "BaseFeatureWriter.compileGSUB",
+      "fvar = None", "fvar = None\nif not any(type(s).__name__.endswith('SubstStatement') for b in ast.iterFeatureBlocks(self.context.feaFile) for s in b.statements):\n    return None", rule="R18.10"),
+    M("cache filled with a placeholder", "ufo2ft/featureWriters/baseFeatureWriter.py", "BaseFeatureWriter.compileGSUB",
+      "compiler._gsub = gsub", "compiler._gsub = gsub if glyphOrder else None", rule="R18.10"),
+    M("GSUB only built for variable fonts", "ufo2ft/util.py", "compileGSUB",
+      "addOpenTypeFeatures(font, featureFile, tables={'GSUB'})", "if fvar:\n    addOpenTypeFeatures(font, featureFile, tables={'GSUB'})", rule="R18.10"),
+    M("compileGSUB locals renamed", "ufo2ft/featureWriters/baseFeatureWriter.py", "BaseFeatureWriter.compileGSUB",
+      "gsub = compileGSUB(feafile, glyphOrder, fvar=fvar)\nif compiler and not hasattr(compiler, '_gsub'):\n    compiler._gsub = gsub\nreturn gsub", "table = compileGSUB(feafile, glyphOrder, fvar=fvar)\nif compiler and not hasattr(compiler, '_gsub'):\n    compiler._gsub = table\nreturn table", kind="equiv"),
     M("sources whose anchor equals the default's are left out of the variable scalar (seeded C18l)", "ufo2ft/featureWriters/baseFeatureWriter.py", "BaseFeatureWriter._getAnchor",
       "if anchor.name == anchorName:\n    location = get_userspace_location(designspace, source.location)\n    x_value.add_value(location, otRound(anchor.x))\n    y_value.add_value(location, otRound(anchor.y))\n    found = True",
       "if anchor.name == anchorName and (source is designspace.findDefault() or (anchor.x, anchor.y) != (0, 0)):\n    location = get_userspace_location(designspace, source.location)\n    x_value.add_value(location, otRound(anchor.x))\n    y_value.add_value(location, otRound(anchor.y))\n    found = True", rule="R18.8"),
